@@ -285,10 +285,17 @@ class Text:
   @staticmethod
   def gen_spec(rng):
     metric = rng.choice(['ngrams', 'ngrams', 'patterns'])
-    return dict(metric=metric, cfg=TX.gen_cfg(rng, metric), api=rng.choice(['object', 'aggfn']))
+    sp = dict(metric=metric, cfg=TX.gen_cfg(rng, metric), api=rng.choice(['object', 'aggfn']))
+    if metric == 'ngrams' and rng.random() < 0.35:
+      # (SC07c) wide vocabulary: every batch holds more distinct n-grams than c*k for a size constant c of the source
+      sp['cfg'] = TX.wide_cfg(rng, k=rng.choice([1, 1, 2]))
+      sp['wide'] = dict(c=rng.choice([c for c in TX.size_constants() if c * sp['cfg']['k'] <= 130]))
+    return sp
 
   @staticmethod
   def gen_batch(rng, sp):
+    if sp.get('wide'):
+      return TX.gen_wide_batch(rng, sp['cfg'], sp['wide']['c'])
     return TX.gen_batch(rng, sp['metric'], 3)
 
   @staticmethod
